@@ -110,6 +110,10 @@ func zzC06Day(n, k int) {
 			capsMax = g.CAPS[i]
 		}
 	}
+	var wgStart [21]float64
+	for i := 0; i < n; i++ {
+		wgStart[i] = g.WG[0][i]
+	}
 	s0 := 0.0
 	for i := 0; i < n; i++ {
 		// day start between the dryness limit and field capacity. Outside the claim: a day that starts
@@ -135,6 +139,15 @@ func zzC06Day(n, k int) {
 		s1 += g.WG[1][i] * g.DZ.Num
 		tp += g.TP[i]
 		vObserve("wg1", g.WG[1][i])
+	}
+	// C08: over the whole day a layer gives at most its plant-available water of the day's start
+	// (TP is the daily uptake, withdrawn as TP*wdt in each of the k sub-steps)
+	for i := 0; i < n; i++ {
+		paw := (wgStart[i] - g.WMIN[i]) * g.DZ.Num
+		if paw < 0 {
+			paw = 0
+		}
+		vAssert("C08.day.uptake_le_plant_available_water", g.TP[i] <= paw+eps)
 	}
 	// C01 at day level: the sub-steps neither create nor lose water
 	vAssert("C01.day.balance_over_substeps", vNear(s1-s0, g.FLUSS0-tp-bottom-drain, eps))
